@@ -8,7 +8,7 @@ Floyd-Warshall over the permitted arcs + a backtracking search over the parallel
 choice of traversable edges that sums to the optimum and whose oriented, chained polylines equal
 the returned coordinates exactly.
 """
-from mc import graphs, pqueue
+from mc import alpha, graphs, pqueue
 from mc.env import guard
 from mc.graphs import INF, Graph, Oracle, close
 
@@ -52,6 +52,7 @@ _COMMON = {
     "history_depth_2": "a query was executed in a state left behind by a different query",
     "state_space_closed": "per-graph BFS reached a fixpoint (no new state at depth 2)",
 }
+_COMMON["long_route"] = "a route of 4, 32 and 1199 hops along a corridor was returned and compared vertex by vertex"
 OBLIGATIONS = {"all": dict(_COMMON, pq_priority_decreased=pqueue.OBLIGATIONS["pq_priority_decreased"],
                           pq_tie_at_minimum=pqueue.OBLIGATIONS["pq_tie_at_minimum"]), "quick": {},
                "thorough": {"three_edge_path": "a valid returned route with 3 edges (4-node graphs)"}}
@@ -106,7 +107,8 @@ def plan(tier, variant):
             shards.append({"nn": s["nn"], "ne": s["ne"], "W": s["W"], "pairs": s["pairs"], "need": s["need"],
                            "lo": lo, "hi": min(n_first, lo + s["chunk"]), "variant": variant, "depth": s["depth"]})
     # the queue that decides which node is settled next (and hence the predecessors a route is rebuilt from)
-    return [q for q in pqueue.shards(tier, variant) if q["regime"] == "dijkstra"] + shards
+    return [q for q in pqueue.shards(tier, variant) if q["regime"] == "dijkstra"] + \
+        [{"kind": "chain", "variant": variant, "tier": tier}] + shards
 
 
 # ---------------------------------------------------------------------------
@@ -310,6 +312,11 @@ def explore_graph(variant, nn, edges, W, depth, ctx):
 def run_shard(shard, ctx):
     if shard.get("kind") == "pq":
         return pqueue.run_shard(shard, ctx)
+    if shard.get("kind") == "chain":
+        for n in CHAIN_N[shard["tier"]]:
+            check_chain(shard["variant"], n, ctx)
+        ctx.sample({"corridor_junctions": CHAIN_N[shard["tier"]], "query": "shortest_path(first, last)"})
+        return
     variant, nn, ne = shard["variant"], shard["nn"], shard["ne"]
     W = shard["W"]
     al = graphs.edge_alphabet(variant, nn, W, shard["pairs"])
@@ -326,7 +333,90 @@ def run_shard(shard, ctx):
 
 
 # ---------------------------------------------------------------------------
+# ---------------------------------------------------------------------------
+# long routes: a corridor of N junctions (every 3rd edge stored against the direction of travel, every 5th with a
+# 3-vertex geometry, a costly shortcut every 7 junctions); the route from the first to the last junction has N-1 hops
+# ---------------------------------------------------------------------------
+CHAIN_N = {"quick": [5, 33, 1200], "thorough": [5, 33, 257, 1200, 3000]}
+
+
+def _chain(variant, n):
+    from tracklib.core.network import Network, Node, Edge
+    from tracklib.core.track import Track
+    from tracklib.core.obs import Obs
+    from tracklib.core.obs_coords import ENUCoords
+    net = Network()
+    xy = [alpha.xy(variant, float(i), float((i * i) % 7)) for i in range(n)]
+    nodes = [Node(1000 + i, ENUCoords(xy[i][0], xy[i][1], 0)) for i in range(n)]
+    for nd in nodes:
+        net.addNode(nd)
+    geoms, weights, k = [], [], 0
+    for i in range(n - 1):
+        a, b = xy[i], xy[i + 1]
+        g = [a, b]
+        if i % 5 == 4:
+            g = [a, ((a[0] + b[0]) / 2.0, (a[1] + b[1]) / 2.0 + 0.25 * alpha.scale(variant)), b]
+        w = float(1 + i % 4)
+        rev = (i % 3 == 2)
+        gg = g[::-1] if rev else g
+        e = Edge(5000 + k, Track([Obs(ENUCoords(x, y, 0)) for x, y in gg]))
+        e.orientation = 0
+        e.weight = w
+        net.addEdge(e, nodes[i + 1] if rev else nodes[i], nodes[i] if rev else nodes[i + 1])
+        k += 1
+        geoms.append(g)
+        weights.append(w)
+    for i in range(0, n - 7, 7):            # shortcuts that never pay off
+        e = Edge(5000 + k, Track([Obs(ENUCoords(*xy[i], 0)), Obs(ENUCoords(*xy[i + 7], 0))]))
+        e.orientation = 0
+        e.weight = 1000.0
+        net.addEdge(e, nodes[i], nodes[i + 7])
+        k += 1
+    return net, nodes, geoms, weights
+
+
+def check_chain(variant, n, ctx):
+    case = {"kind": "chain", "variant": variant, "N": n}
+    net, nodes, geoms, weights = _chain(variant, n)
+    ctx.case(n > 2)
+    ctx.transition()
+    st, trk = guard(net.shortest_path, nodes[0], nodes[-1])
+    key = "shortest_path/long-corridor/"
+    if st != "ok":
+        ctx.violation(key + ("does-not-return" if st == "hang" else "raises"), case, trk)
+        return
+    if trk is None:
+        ctx.violation(key + "none-for-a-reachable-target", case, None)
+        return
+    st, got = guard(lambda: ([getattr(p_, "id", p_) for p_ in trk.path] if isinstance(trk.path[0], object) else list(trk.path),
+                             [(float(o.position.getX()), float(o.position.getY())) for o in trk]))
+    if st != "ok":
+        ctx.violation(key + "result-unreadable", case, got)
+        return
+    path, coords = got
+    want_path = [1000 + i for i in range(n)]
+    if [getattr(x, "id", x) for x in path] != want_path:
+        ctx.violation(key + "node-list-is-not-the-corridor", case, {"got_head": path[:6], "got_len": len(path), "expected_len": n})
+        return
+    want = [geoms[0][0]]
+    for g in geoms:
+        want += g[1:]
+    if coords != want:
+        ctx.violation(key + "geometry-is-not-the-chained-edge-polylines", case,
+                      {"got_len": len(coords), "expected_len": len(want),
+                       "first_difference": next((i for i, (a, b) in enumerate(zip(coords, want)) if a != b), None)})
+        return
+    st, d = guard(net.shortest_distance, nodes[0], nodes[-1])
+    if st != "ok" or not close(float(d), sum(weights)):
+        ctx.violation(key + "distance-differs-from-the-sum-of-weights", case, {"got": repr(d)[:60], "expected": sum(weights)})
+        return
+    ctx.oblige("long_route")
+    ctx.outcome(("chain", n))
+
+
 def replay(case, ctx):
+    if case.get("kind") == "chain":
+        return check_chain(case["variant"], case["N"], ctx)
     if case.get("kind") == "pq":
         return pqueue.replay(case, ctx)
     variant, nn = case["variant"], case["nn"]
